@@ -377,5 +377,92 @@ def main4():
         print(path, t.n, 'rewrites')
 
 
+class ReorderDefs(ast.NodeTransformer):
+    """reverse every maximal run of consecutive undecorated function
+    definitions in a class body / module body"""
+    n = 0
+
+    def _reorder(self, body):
+        out, run = [], []
+
+        def flush():
+            if len(run) > 1:
+                self.n += 1
+            out.extend(reversed(run))
+            del run[:]
+        for st in body:
+            if isinstance(st, ast.FunctionDef) and not st.decorator_list:
+                run.append(st)
+            else:
+                flush()
+                out.append(st)
+        flush()
+        return out
+
+    def visit_ClassDef(self, node):
+        self.generic_visit(node)
+        node.body = self._reorder(node.body)
+        return node
+
+    def visit_Module(self, node):
+        self.generic_visit(node)
+        node.body = self._reorder(node.body)
+        return node
+
+
+_main4 = main4
+
+
+def main5():
+    if sys.argv[1] != 'reorder':
+        return _main4()
+    for path in sys.argv[2:]:
+        tree = ast.parse(open(path).read())
+        t = ReorderDefs()
+        tree = t.visit(tree)
+        ast.fix_missing_locations(tree)
+        open(path, 'w').write(ast.unparse(tree) + '\n')
+        print(path, t.n, 'rewrites')
+
+
+class FlipCompare(ast.NodeTransformer):
+    """if a != b: A else: B -> if a == b: B else: A  (also `is not`,
+    `not in`, and the reverse direction for ==/is/in) for if/else with a
+    single comparison against a constant / None or a membership test."""
+    n = 0
+    NEG = {ast.Eq: ast.NotEq, ast.NotEq: ast.Eq, ast.Is: ast.IsNot,
+           ast.IsNot: ast.Is, ast.In: ast.NotIn, ast.NotIn: ast.In}
+
+    def visit_If(self, node):
+        self.generic_visit(node)
+        t = node.test
+        if node.orelse and isinstance(t, ast.Compare) and len(t.ops) == 1 \
+                and type(t.ops[0]) in self.NEG and (
+                    isinstance(t.ops[0], (ast.In, ast.NotIn, ast.Is,
+                                          ast.IsNot)) or
+                    isinstance(t.comparators[0], ast.Constant)):
+            self.n += 1
+            return ast.If(test=ast.Compare(
+                left=t.left, ops=[self.NEG[type(t.ops[0])]()],
+                comparators=t.comparators), body=node.orelse,
+                orelse=node.body)
+        return node
+
+
+_main5 = main5
+
+
+def main6():
+    if sys.argv[1] != 'flip':
+        return _main5()
+    for path in sys.argv[2:]:
+        tree = ast.parse(open(path).read())
+        t = FlipCompare()
+        tree = t.visit(tree)
+        ast.fix_missing_locations(tree)
+        open(path, 'w').write(ast.unparse(tree) + '\n')
+        print(path, t.n, 'rewrites')
+
+
 if __name__ == '__main__':
-    main4()
+    main6()
